@@ -71,11 +71,13 @@ type emitClass struct {
 }
 
 type wireCtx struct {
-	r       *core.Run
-	pk      *packages.Package
-	info    *types.Info
-	methods map[string]*ast.FuncDecl // encoder methods by name
-	class   map[string]emitClass
+	r            *core.Run
+	pk           *packages.Package
+	info         *types.Info
+	methods      map[string]*ast.FuncDecl // encoder methods by name
+	class        map[string]emitClass
+	dispatchMemo map[*types.Func]int
+	alias        map[string]string // actual name of a renamed encoder method → the name the rules use
 }
 
 func (w *wireCtx) isEncRecv(e ast.Expr) bool {
@@ -88,6 +90,9 @@ func (w *wireCtx) encCall(call *ast.CallExpr) string {
 	s, ok := call.Fun.(*ast.SelectorExpr)
 	if !ok || !w.isEncRecv(s.X) {
 		return ""
+	}
+	if a, ok := w.alias[s.Sel.Name]; ok {
+		return a
 	}
 	return s.Sel.Name
 }
@@ -116,7 +121,7 @@ func (w *wireCtx) argKind(fd *ast.FuncDecl, arg ast.Expr) (kind, detail string) 
 		if len(src) > 0 {
 			all := true
 			for _, s := range src {
-				if c, ok := core.Unparen(s).(*ast.CallExpr); !ok || core.CalleeName(w.info, c) != core.Module+"/"+codecRel+".appendString" {
+				if c, ok := core.Unparen(s).(*ast.CallExpr); !ok || !core.CalleeIs(w.info, c, codecRel, "appendString") {
 					if cl, ok := core.Unparen(s).(*ast.CallExpr); ok && core.CalleeName(w.info, cl) == "builtin.make" {
 						continue // buffer := make([]byte, 0, n) before appendString
 					}
@@ -217,6 +222,19 @@ func (w *wireCtx) classifyEmitters() {
 			w.methods[fd.Name.Name] = fd
 		}
 	})
+	// the encoder methods the rules speak of by name; one that was renamed is found through
+	// its recorded fingerprint and keeps its role under the name the rules know
+	w.alias = map[string]string{}
+	for _, name := range []string{"add", "addQuoted", "addString", "fieldLabel", "fieldSep", "openObject", "closeObject", "openArray", "closeArray", "encodeAny", "encodeOneofBody", "encodeScalarField", "encodeValue"} {
+		if w.methods[name] != nil {
+			continue
+		}
+		if fd, _ := w.r.P.FuncDecl(codecRel, "encoder."+name); fd != nil {
+			delete(w.methods, fd.Name.Name)
+			w.methods[name] = fd
+			w.alias[fd.Name.Name] = name
+		}
+	}
 	if w.methods["add"] == nil || w.methods["addString"] == nil || w.methods["addQuoted"] == nil {
 		w.r.Fatal("anchor: encoder.add/addString/addQuoted not found")
 		return
@@ -363,6 +381,13 @@ func (w *wireCtx) ruleW5() {
 				} else {
 					o.Fail("%s", why)
 				}
+			case k == "param":
+				// a helper that writes what it is handed: the obligation moves to its call sites
+				if why, ok := w.paramSitesOK(fd, d, m, 2); ok {
+					o.Auto("%s", why)
+				} else {
+					o.Fail("%s", why)
+				}
 			default:
 				o.Fail("%s receives %s (%s): arbitrary text written without JSON escaping produces malformed or forged documents", m, core.ExprStr(c.Args[0]), k)
 			}
@@ -370,6 +395,73 @@ func (w *wireCtx) ruleW5() {
 		})
 	}
 	r.Floor("R-WIRE/W5", 12, "add/addQuoted call sites in encoder.go + encodeAny splice")
+}
+
+// paramSitesOK: fd hands its parameter to add/addQuoted; every call site of fd
+// in the package must pass something that would have been accepted in place:
+// a constant, a formatted number, an escaped string, or — inside encodeAny's
+// call tree — the pre-encoded splice.
+func (w *wireCtx) paramSitesOK(fd *ast.FuncDecl, param, prim string, depth int) (string, bool) {
+	idx, i := -1, 0
+	for _, f := range fd.Type.Params.List {
+		for _, n := range f.Names {
+			if n.Name == param {
+				idx = i
+			}
+			i++
+		}
+	}
+	fobj := w.info.Defs[fd.Name]
+	if idx < 0 || fobj == nil {
+		return "parameter " + param + " not found", false
+	}
+	inAny := map[*ast.FuncDecl]bool{}
+	if afd := w.methods["encodeAny"]; afd != nil {
+		for _, d := range core.TreeDecls(w.pk, afd, 3) {
+			inAny[d] = true
+		}
+	}
+	sites, bad := 0, ""
+	core.AllFuncDecls(w.pk, func(caller *ast.FuncDecl) {
+		if caller.Body == nil {
+			return
+		}
+		ast.Inspect(caller.Body, func(n ast.Node) bool {
+			c, ok := n.(*ast.CallExpr)
+			if !ok || idx >= len(c.Args) {
+				return true
+			}
+			fn := core.CalleeFunc(w.info, c)
+			if fn == nil || fn.Origin() != fobj {
+				return true
+			}
+			sites++
+			arg := c.Args[idx]
+			k, d := w.argKind(caller, arg)
+			switch {
+			case k == "const" && prim == "add", k == "num", k == "float", k == "escaped" && prim == "add":
+			case k == "const" && prim == "addQuoted" && !strings.ContainsAny(d, "\"\\") && !hasCtl(d):
+			case k == "param" && depth > 0:
+				if why, ok := w.paramSitesOK(caller, d, prim, depth-1); !ok {
+					bad = why
+				}
+			case prim == "add" && inAny[caller]:
+				if why, ok := w.spliceOK(caller, &ast.CallExpr{Fun: c.Fun, Args: []ast.Expr{arg}}); !ok {
+					bad = why
+				}
+			default:
+				bad = fmt.Sprintf("%s passes %s (%s) to %s, which writes it with %s", core.FuncName(caller), core.ExprStr(arg), k, core.FuncName(fd), prim)
+			}
+			return true
+		})
+	})
+	if sites == 0 {
+		return "helper " + core.FuncName(fd) + " writes its parameter " + param + " unescaped and has no call site to judge it by", false
+	}
+	if bad != "" {
+		return bad, false
+	}
+	return fmt.Sprintf("helper writing its parameter: all %d call site(s) pass a constant, a formatted number, an escaped string or the pre-encoded Any content", sites), true
 }
 
 func hasCtl(s string) bool {
@@ -402,6 +494,14 @@ func (w *wireCtx) spliceOK(fd *ast.FuncDecl, call *ast.CallExpr) (string, bool) 
 							return false
 						}
 						ret, ok := x.(*ast.ReturnStmt)
+						if ok && len(ret.Results) == 1 {
+							// return f(x): only the codec's own encode hands back (json, error)
+							n++
+							if !w.preEncoded(cd, ret.Results[0]) {
+								bad = core.ExprStr(ret.Results[0])
+							}
+							return true
+						}
 						if !ok || len(ret.Results) != 2 {
 							return true
 						}
@@ -435,7 +535,7 @@ func (w *wireCtx) spliceOK(fd *ast.FuncDecl, call *ast.CallExpr) (string, bool) 
 			// innerBytes := enc.codec.encode(dst)
 			ok := false
 			for _, s2 := range w.assignSources(fd, w.info.Uses[x]) {
-				if c, isCall := core.Unparen(s2).(*ast.CallExpr); isCall && core.CalleeName(w.info, c) == "(*"+core.Module+"/"+codecRel+".Codec).encode" {
+				if c, isCall := core.Unparen(s2).(*ast.CallExpr); isCall && core.CalleeIs(w.info, c, codecRel, "Codec.encode") {
 					ok = true
 				}
 			}
@@ -521,7 +621,7 @@ func (w *wireCtx) preEncoded(fd *ast.FuncDecl, e ast.Expr) bool {
 		}
 		return true
 	case *ast.CallExpr:
-		return core.CalleeName(w.info, x) == "(*"+core.Module+"/"+codecRel+".Codec).encode"
+		return core.CalleeIs(w.info, x, codecRel, "Codec.encode")
 	}
 	return false
 }
@@ -866,7 +966,7 @@ func (w *wireCtx) ruleW6() {
 				return true
 			}
 			// value encoders (encodeValue, encodeObject, …) frame their own output: only plain helpers are followed
-			if fn := core.CalleeFunc(w.info, c); fn != nil && fn.Pkg() == w.pk.Types && !strings.HasPrefix(fn.Name(), "encode") {
+			if fn := core.CalleeFunc(w.info, c); fn != nil && fn.Pkg() == w.pk.Types && !w.reachesDispatch(fn) {
 				if cd := core.DeclOf(w.pk, fn.Origin()); cd != nil && cd.Body != nil && cd.Type.Params != nil {
 					sub := map[string]string{}
 					i := 0
@@ -930,10 +1030,21 @@ func (w *wireCtx) ruleW6() {
 		}
 		o := r.Add("R-WIRE/W6", name+" | reads \"!type\"", fd.Pos(), "decoder recognises the type key")
 		found := false
-		ast.Inspect(fd.Body, func(n ast.Node) bool {
-			if b, ok := n.(*ast.BinaryExpr); ok && b.Op == token.EQL {
-				if s, ok := core.ConstString(w.info, b.Y); ok && s == "!type" {
-					found = true
+		core.InspectTree(w.pk, fd.Body, func(n ast.Node) bool {
+			switch x := n.(type) {
+			case *ast.BinaryExpr:
+				if x.Op == token.EQL {
+					for _, side := range []ast.Expr{x.X, x.Y} {
+						if s, ok := core.ConstString(w.info, side); ok && s == "!type" {
+							found = true
+						}
+					}
+				}
+			case *ast.CaseClause:
+				for _, e := range x.List {
+					if s, ok := core.ConstString(w.info, e); ok && s == "!type" {
+						found = true
+					}
 				}
 			}
 			return true
@@ -946,6 +1057,46 @@ func (w *wireCtx) ruleW6() {
 	}
 	// labels are the schema's JSON names: NameInParent implementations
 	r.Floor("R-WIRE/W6", 4, "two encoders, two decoders")
+}
+
+// reachesDispatch: the function can reach, through static calls inside the
+// package, the value dispatcher encodeValue — i.e. it encodes a nested value
+// and frames its own output, so the labels it writes belong to a deeper level.
+func (w *wireCtx) reachesDispatch(fn *types.Func) bool {
+	if w.dispatchMemo == nil {
+		w.dispatchMemo = map[*types.Func]int{}
+	}
+	var visit func(f *types.Func, depth int) bool
+	visit = func(f *types.Func, depth int) bool {
+		if core.RecordedName(f) == "encodeValue" {
+			return true
+		}
+		if v, ok := w.dispatchMemo[f]; ok {
+			return v == 1
+		}
+		w.dispatchMemo[f] = 0
+		cd := core.DeclOf(w.pk, f)
+		if cd == nil || cd.Body == nil || depth > 8 {
+			return false
+		}
+		res := false
+		ast.Inspect(cd.Body, func(n ast.Node) bool {
+			if res {
+				return false
+			}
+			if c, ok := n.(*ast.CallExpr); ok {
+				if g := core.CalleeFunc(w.info, c); g != nil && g.Pkg() == w.pk.Types && visit(g.Origin(), depth+1) {
+					res = true
+				}
+			}
+			return true
+		})
+		if res {
+			w.dispatchMemo[f] = 1
+		}
+		return res
+	}
+	return visit(fn.Origin(), 0)
 }
 
 // ruleEscaper: appendString is the only string emitter and covers the JSON
@@ -990,9 +1141,9 @@ func (w *wireCtx) ruleEscaper() {
 	// callers
 	core.AllFuncDecls(w.pk, func(f2 *ast.FuncDecl) {
 		ast.Inspect(f2.Body, func(n ast.Node) bool {
-			if c, ok := n.(*ast.CallExpr); ok && core.CalleeName(w.info, c) == core.Module+"/"+codecRel+".appendString" {
+			if c, ok := n.(*ast.CallExpr); ok && core.CalleeIs(w.info, c, codecRel, "appendString") {
 				o := r.Add("R-WIRE/W7", core.FuncName(f2)+" | calls appendString", c.Pos(), "caller of appendString")
-				if core.FuncName(f2) == "encoder.addString" {
+				if f2 == w.methods["addString"] {
 					o.Auto("the single string emitter")
 				} else {
 					o.Fail("a second string emitter bypasses addString")
